@@ -17,6 +17,7 @@ mod c12;
 mod c13;
 mod c16;
 mod probe;
+mod purity;
 #[cfg(feature = "nightly")]
 mod pm;
 
